@@ -13,7 +13,8 @@ META = {
              "magnitudes 1e-6..1e3) x bands {default, random, exactly on grid points, empty, single "
              "point, outside} x powers 0..4. Non-trivial = band holds >= 2 grid points and >= 1 positive "
              "finite value; distinct = sha1 of the case."
-             " Frequency grids also include steps that are small whole multiples of a base step (first step often equals the mean step)."),
+             " Frequency grids also include steps that are small whole multiples of a base step (first step often equals the mean step)."
+             " Bands include limits an ulp to 1e-7 relative off a grid frequency, on either side (near_grid)."),
     "assumptions": [
         "oracle: half-open mask fmin<=f<fmax, NaN->0, composite trapezoid over consecutive in-band points (2D: e(f) from an independent wrapped direction sum)",
         "tolerance |got-ref| <= 1e-12*sum|terms| (+1e-300); derived Hm0/Tm01/Tm02 1e-11 relative; NaN==NaN, inf==inf",
